@@ -31,7 +31,7 @@ From PV Require Import History.
 Import ListNotations.
 Open Scope Qc_scope.
 
-Inductive dkey := DLit (q : Qc) | DPar (p : nat).
+Inductive dkey := DLit (q : Qc) | DPar (p : nat).     (* DPar p: delay parameter p (own name space, values dpar) *)
 Inductive factor := FVar (x : nat) | FPar (p : nat) | FPast (x : nat) (d : dkey) | FReal (c : Qc) | FSign (c : Qc).
 Definition term := (Qc * list factor)%type.
 Definition rhs := list term.
@@ -154,8 +154,9 @@ Section Eval.
   Variable hist : Qc -> list Qc.          (* ANY history function *)
   Variable pos : nat -> nat.              (* slot of a state variable in y (_state_var_indices) *)
   Variable par : nat -> Qc.               (* parameter values at call time *)
+  Variable dpar : nat -> Qc.              (* values of the delay parameters (DPar p) *)
 
-  Definition dval (d : dkey) : Qc := match d with DLit q => q | DPar p => par p end.
+  Definition dval (d : dkey) : Qc := match d with DLit q => q | DPar p => dpar p end.
 
   (* ---------- Spec: a delayed term is component pos(x) of hist(t - tau), t in time units *)
   Definition past_val (tt : Qc) (x : nat) (d : dkey) : Qc := nth (pos x) (hist (tt - dval d)) 0.
@@ -244,40 +245,107 @@ Definition edge_delay_above_step (step : Qc) (es : list edge) : bool :=
 (* ---------------------------------------------------------------- run: Euler + DDEHistory (method of steps) *)
 Definition qn (i : nat) : Qc := Q2Qc (inject_Z (Z.of_nat i)).
 
+(* ---------------------------------------------------------------- vector-valued variables (vectorize=True: n structurally
+   equal nodes merged, every variable a vector of n units; variable x occupies y[start x : start x + n]).  The generated line is
+       x_hist<k> = hist(t_time - d)[start x : start x + n]         for a literal delay d
+       x_hist<k> = hist(t_time - d1[0])[start x : start x + n]     for a delay PARAMETER d1 (base_backend._process_delay:
+                                                                   f"{delay}[{start_idx}]" when the parameter has a shape)
+   i.e. unit u reads component start x + u, and a per-unit delay parameter is read at unit 0 for every unit (finding C10-F5).
+   All other operations are element-wise, so unit u evaluates the scalar model with pos x := start x + u, par p := par p u. *)
+Section Vec.
+  Variable hist : Qc -> list Qc.
+  Variable start : nat -> nat.
+  Variable par dpar : nat -> nat -> Qc.   (* parameter p of unit u *)
+  Variable n : nat.
+  (* result: one row per unit, one entry per variable; dy[start x + u] is entry x of row u *)
+  Definition vspec_eval (m : model) md t y : list (list Qc) :=
+    map (fun u => spec_eval hist (fun x => (start x + u)%nat) (fun p => par p u) (fun p => dpar p u) m md t y) (seq 0 n).
+  Definition vimpl_eval (m : model) md t y : list (list Qc) :=
+    map (fun u => impl_eval hist (fun x => (start x + u)%nat) (fun p => par p u) (fun p => dpar p 0%nat) m md t y) (seq 0 n).
+End Vec.
+(* guard of finding C10-F5, for parameter tables given as lists (row p = values of delay parameter p over the units) *)
+Definition delays_uniform (dps : list (list Qc)) : bool :=
+  forallb (fun r => forallb (fun v => Qc_eqb v (nth 0 r 0)) r) dps.
+
+(* one step of the fixed-step solvers, given the right-hand side F at the current step (time AND history fixed):
+     _solve_euler : y += dt * F(y)
+     _solve_heun  : rhs = F(y); y_0 = y + dt*rhs; y += dt/2 * (rhs + F(y_0))     (both stages are evaluated with the same
+                    step counter, so both read hist(i*dt - tau); the history is updated once per step) *)
+Inductive scheme := Euler | Heun.
+Definition step_y (sc : scheme) (dt : Qc) (F : row -> list Qc) (y : row) : row :=
+  match sc with
+  | Euler => vadd y (vscale dt (F y))
+  | Heun => let k1 := F y in let y0 := vadd y (vscale dt k1) in vadd y (vscale (dt / (1 + 1)) (vadd k1 (F y0)))
+  end.
+
 Section Run.
+  Variable sc : scheme.
   Variable pos : nat -> nat.
   Variable par : nat -> Qc.
+  Variable dpar : nat -> Qc.              (* values of the delay parameters (DPar p) *)
   Variable m : model.
   Variable dt : Qc.
   Variable junk : nat -> list row.        (* arbitrary content of freshly allocated buffer rows *)
 
-  (* Impl: _solve_euler with has_dde; returns the recorded rows (store_step = 1) *)
-  Fixpoint euler_impl (n i : nat) (y : row) (h : hist) : option (list row) :=
+  (* Impl: _solve_euler / _solve_heun with has_dde; returns the recorded rows (store_step = 1) *)
+  Fixpoint loop_impl (n i : nat) (y : row) (h : hist) : option (list row) :=
     match n with
     | O => Some []
     | S n' =>
-        let f := impl_eval (query h) pos par m (Fixed dt) (qn i) y in
-        let y' := vadd y (vscale dt f) in
+        let y' := step_y sc dt (impl_eval (query h) pos par dpar m (Fixed dt) (qn i)) y in
         match update h (junk i) (qn (S i) * dt) y' with
         | None => None
-        | Some h' => match euler_impl n' (S i) y' h' with None => None | Some r => Some (y :: r) end
+        | Some h' => match loop_impl n' (S i) y' h' with None => None | Some r => Some (y :: r) end
         end
     end.
   Definition run_impl (cap n : nat) (y0 : row) : option (list row) :=
-    euler_impl n 0 y0 (init y0 0 cap true (junk 0)).
+    loop_impl n 0 y0 (init y0 0 cap true (junk 0)).
 
   (* Spec: the method-of-steps recurrence; the history is the piecewise-linear interpolant of the steps so far,
      constant y0 before the start *)
-  Fixpoint euler_spec (n i : nat) (y : row) (recs : list (Qc * row)) : list row :=
+  Fixpoint loop_spec (n i : nat) (y : row) (recs : list (Qc * row)) : list row :=
     match n with
     | O => []
     | S n' =>
-        let f := spec_eval (interp recs) pos par m (Fixed dt) (qn i) y in
-        let y' := vadd y (vscale dt f) in
-        y :: euler_spec n' (S i) y' (recs ++ [(qn (S i) * dt, y')])
+        let y' := step_y sc dt (spec_eval (interp recs) pos par dpar m (Fixed dt) (qn i)) y in
+        y :: loop_spec n' (S i) y' (recs ++ [(qn (S i) * dt, y')])
     end.
-  Definition run_spec (n : nat) (y0 : row) : list row := euler_spec n 0 y0 [(0, y0)].
+  Definition run_spec (n : nat) (y0 : row) : list row := loop_spec n 0 y0 [(0, y0)].
+
+  (* the records the recurrence has produced after n steps *)
+  Fixpoint spec_recs (n i : nat) (y : row) (recs : list (Qc * row)) : list (Qc * row) :=
+    match n with
+    | O => recs
+    | S n' =>
+        let y' := step_y sc dt (spec_eval (interp recs) pos par dpar m (Fixed dt) (qn i)) y in
+        spec_recs n' (S i) y' (recs ++ [(qn (S i) * dt, y')])
+    end.
 End Run.
+
+(* ---------------------------------------------------------------- which rows DDEHistory.__call__ reads (for the adaptive run,
+   where the arithmetic is floating point but the bookkeeping is exact): 0 = before/at the first record -> row 0,
+   1 = at/after the last record -> last row, 2 = between -> rows idx and idx+1 *)
+Definition qcase (tsl : list Qc) (t : Qc) : nat * nat :=
+  if Qcleb t (hd 0 tsl) then (0%nat, 0%nat)
+  else if Qcleb (last tsl 0) t then (1%nat, (length tsl - 1)%nat)
+  else (2%nat, (bisect_right tsl t - 1)%nat).
+(* replay of a recorded sequence of update times (None) and query times (Some t): the row selection of every query
+   against the update times recorded so far *)
+Fixpoint qcases (tsl : list Qc) (ops : list (bool * Qc)) : list (nat * nat) :=
+  match ops with
+  | [] => []
+  | (true, t) :: ops' => qcases (tsl ++ [t]) ops'
+  | (false, t) :: ops' => qcase tsl t :: qcases tsl ops'
+  end.
+(* the adaptive path feeds every output time twice (solout at the end of one integrate() segment and at the start of the
+   next): update times are only weakly increasing *)
+Fixpoint weak_incrb (l : list Qc) : bool :=
+  match l with
+  | [] => true
+  | x :: l' => match l' with [] => true | y :: _ => Qcleb x y end && weak_incrb l'
+  end.
+Fixpoint op_update_times (ops : list (bool * Qc)) : list Qc :=
+  match ops with [] => [] | (true, t) :: o => t :: op_update_times o | (false, _) :: o => op_update_times o end.
 
 (* ---------------------------------------------------------------- the rewrite x(t-d) -> past(x, d) on tokens *)
 Inductive tok := TId (s : nat) | TLp | TRp | TMinus | TComma | TOther (c : nat).
